@@ -179,3 +179,23 @@ Theorem C14_nested_holder_example :
    (res_status r, res_values r, res_log r) = (2%nat, [], [[(11%positive, [(1%positive, VInt 5)])]])).
 Proof. exact nested_holder_runs_alone. Qed.
 Print Assumptions C14_nested_holder_example.
+
+(* ---- ... and in the model's own executor only the isolated nodes pause, at every nesting depth: no hypothesis left ---- *)
+From HG Require Import NestedPause.
+Theorem C14_only_isolated_nodes_pause : forall d g sel eps ft gt subs,
+  wf_flags d (NG g sel eps ft gt subs) ->
+  forall n st ins p, In n (g_nodes g) -> exec_ng d Async ft gt subs n st ins = OPause p -> is_interrupt n = true.
+Proof. exact only_flagged_nodes_pause. Qed.
+Print Assumptions C14_only_isolated_nodes_pause.
+
+Theorem C14_model_pausing_step_calls_only_the_pausing_node : forall d g sel eps ft gt subs snap pv rd pi p acc calls,
+  wf_flags d (NG g sel eps ft gt subs) -> (forall n, In n rd -> In n (g_nodes g)) ->
+  superstep_async (exec_ng d Async ft gt subs) g snap pv rd pi = (SPause p acc, calls) ->
+  exists i, isolate rd = [i] /\ is_interrupt i = true /\
+            calls = match fst (run_one (exec_ng d Async ft gt subs) g snap pv i) with Some ins => [(n_name i, ins)] | None => [] end.
+Proof. exact model_pausing_step_calls_only_the_pausing_node. Qed.
+Print Assumptions C14_model_pausing_step_calls_only_the_pausing_node.
+
+Theorem C14_flags_example : wf_flags 3 hold_outer.
+Proof. exact hold_outer_wf. Qed.
+Print Assumptions C14_flags_example.
